@@ -763,54 +763,62 @@ func TestC10_ExhaustiveSequences(t *testing.T) {
 // TestC10_RapidMalformed: well-formed generated templates are damaged at tag level (a closer gets another
 // name or a keyword, a tag is dropped or duplicated, brace counts are changed, a section is crossed with its
 // neighbour) and handed to the reference lexer / grammar, which decides accept or reject (checkC10Seq).
+var c10TagRe = regexp.MustCompile(`\{\{\{?[^{}]*\}\}\}?`)
+
+// c10Damage applies 1-2 tag-level mutations to a template source.
+func c10Damage(rt *rapid.T, src string) string {
+	tagRe := c10TagRe
+	for m := rapid.IntRange(1, 2).Draw(rt, "mutations"); m > 0; m-- {
+		locs := tagRe.FindAllStringIndex(src, -1)
+		if len(locs) == 0 {
+			break
+		}
+		l := locs[rapid.IntRange(0, len(locs)-1).Draw(rt, "tag")]
+		tag := src[l[0]:l[1]]
+		var repl string
+		switch rapid.IntRange(0, 6).Draw(rt, "mut") {
+		case 0: // another name in this tag
+			name := rapid.SampledFrom(c10Names).Draw(rt, "newname")
+			repl = regexp.MustCompile(`[^\s{}#/^!]+(\s*\}\}\}?)$`).ReplaceAllString(tag, name+"$1")
+		case 1: // a keyword in front of the name of a closer / opener
+			kw := rapid.SampledFrom([]string{"if ", "unless "}).Draw(rt, "kw")
+			repl = regexp.MustCompile(`([#/^])\s*`).ReplaceAllString(tag, "${1}"+kw)
+		case 2: // tag dropped
+			repl = ""
+		case 3: // tag duplicated
+			repl = tag + tag
+		case 4: // one more / one less closing brace
+			if strings.HasSuffix(tag, "}}}") {
+				repl = tag[:len(tag)-1]
+			} else {
+				repl = tag + "}"
+			}
+		case 5: // one more opening brace
+			repl = "{" + tag
+		default: // swap with the next tag
+			if len(locs) >= 2 {
+				o := locs[rapid.IntRange(0, len(locs)-1).Draw(rt, "other")]
+				if o[0] > l[1] {
+					src = src[:l[0]] + src[o[0]:o[1]] + src[l[1]:o[0]] + tag + src[o[1]:]
+				}
+			}
+			continue
+		}
+		src = src[:l[0]] + repl + src[l[1]:]
+	}
+	return src
+}
+
 func TestC10_RapidMalformed(t *testing.T) {
 	rec := evid.New("C10", "TestC10_RapidMalformed", "C10.seq", c10Rule+"; rapid: generated well-formed templates with 1-2 tag-level mutations (closer renamed / given a keyword, tag dropped or duplicated, brace count changed, closers swapped), decided by the reference lexer and grammar")
 	defer finish(t, rec)
-	tagRe := regexp.MustCompile(`\{\{\{?[^{}]*\}\}\}?`)
 	runRapid(t, pick(20000, 150000), 1010, func(rt *rapid.T) {
 		budget := rapid.SampledFrom([]int{3, 5, 8, 12}).Draw(rt, "budget")
 		tree := fixEdges(genNodes(rt, rapid.IntRange(1, 4).Draw(rt, "depth"), &budget))
 		var sb strings.Builder
 		mPrint(tree, &sb)
 		src := sb.String()
-		for m := rapid.IntRange(1, 2).Draw(rt, "mutations"); m > 0; m-- {
-			locs := tagRe.FindAllStringIndex(src, -1)
-			if len(locs) == 0 {
-				break
-			}
-			l := locs[rapid.IntRange(0, len(locs)-1).Draw(rt, "tag")]
-			tag := src[l[0]:l[1]]
-			var repl string
-			switch rapid.IntRange(0, 6).Draw(rt, "mut") {
-			case 0: // another name in this tag
-				name := rapid.SampledFrom(c10Names).Draw(rt, "newname")
-				repl = regexp.MustCompile(`[^\s{}#/^!]+(\s*\}\}\}?)$`).ReplaceAllString(tag, name+"$1")
-			case 1: // a keyword in front of the name of a closer / opener
-				kw := rapid.SampledFrom([]string{"if ", "unless "}).Draw(rt, "kw")
-				repl = regexp.MustCompile(`([#/])\s*`).ReplaceAllString(tag, "${1}"+kw)
-			case 2: // tag dropped
-				repl = ""
-			case 3: // tag duplicated
-				repl = tag + tag
-			case 4: // one more / one less closing brace
-				if strings.HasSuffix(tag, "}}}") {
-					repl = tag[:len(tag)-1]
-				} else {
-					repl = tag + "}"
-				}
-			case 5: // one more opening brace
-				repl = "{" + tag
-			default: // swap with the next tag
-				if len(locs) >= 2 {
-					o := locs[rapid.IntRange(0, len(locs)-1).Draw(rt, "other")]
-					if o[0] > l[1] {
-						src = src[:l[0]] + src[o[0]:o[1]] + src[l[1]:o[0]] + tag + src[o[1]:]
-					}
-				}
-				continue
-			}
-			src = src[:l[0]] + repl + src[l[1]:]
-		}
+		src = c10Damage(rt, src)
 		items, bad, dc := mLex(src)
 		ok := false
 		if !dc && bad == "" {
